@@ -24,7 +24,7 @@ S = {
    note="strengthened: graphgen MkVector 'distinct recent nodes' mode, c03 container-of-products family"),
  "C04": dict(breaks="C04", file="optimizer/duplicates_optimizer.rs (NodeKey::new)",
    needs=">=2 RandomPermutation nodes of equal length in one inlined graph given to optimize_context (in compiler output: joins): they are merged into one draw",
-   detection=[]),
+   detection=[('C04', 'caught', '13 s', 'opt-random-merged'), ('C06', 'caught', '2 s', 'output-value')]),
  "C05": dict(breaks="C05", file="mpc/mpc_compiler.rs (Truncate compilation)",
    needs="128-bit type, divisor 2^k with 65 <= k <= 126, |x| >= 2^64: k is taken from the low 64 bits of the scale",
    detection=[("C05","caught","7 s","pow2-out-of-band")]),
@@ -47,7 +47,7 @@ S = {
    detection=[("C10","caught","<1 s","value-Gemm")]),
  "C11": dict(breaks="C11", file="graphs.rs (remove_last_node / Context::unregister_node)",
    needs="a node rejected by a size check (after type inference succeeded) in a graph that has no named node yet, then another node added: the stale cached type is inherited",
-   detection=[]),
+   detection=[('C11', 'caught', '2 s', 'removal-changes-outcome:rollback:size-invalid:add_node (removal oracle)')]),
  "C12": dict(breaks="C12", file="graphs.rs (recover_original_context, name tables)",
    needs="a mutated payload with in-range ids but duplicated names / duplicated name-table keys: accepted, name lookups inconsistent",
    detection=[("C12","caught","7 s","deser-illformed-graph-name (mut-ids, mutation DupName)")]),
@@ -56,22 +56,64 @@ S = {
    detection=[("C13","caught","2 s","json-value")]),
  "C14": dict(breaks="C14", file="random.rs (PRNG::get_random_value, Type::Vector)",
    needs="sharing a value whose type contains a Vector with >=2 elements: random shares are n clones of one element, so one party can compute differences of secret elements",
-   detection=[]),
+   detection=[('C14', 'caught', '30 s', 'junk-equals-share (parties)')]),
  "C15": dict(breaks="C15", file="evaluators/simple_evaluator.rs (PRF cache key)",
    needs="two distinct keys agreeing in their first 8 bytes evaluated by the same evaluator instance, compared with another instance/order",
    detection=[("C15","caught","3 s","prf-impure")]),
  "C16": dict(breaks="C16", file="ops/comparisons.rs (build_comparison_graph remainder join order)",
    needs="bit width with >=3 set bits (7, 11, 13, ...) and operands that differ in opposite directions in two lower bit groups",
    detection=[("C16","caught","2 s","wrong-result:Le/u (boundary sweep)")]),
- "C17": dict(breaks="C17", file="", needs="", detection=[]),
+ "C17": dict(breaks="C17", file="ops/adder.rs (calculate_carry_bits)",
+   needs="BinaryAdd with overflow_bit = true on 2-bit operands (also LongDivision with a 2-bit divisor)",
+   detection=[("C17","caught","2 s","add-shape (add-grid)")]),
  "C18": dict(breaks="C18", file="evaluators/simple_evaluator.rs (get_sorting_permutation)",
    needs="sort key wider than 64 bits ([n,b] BIT key with b > 64, or SortByIntegerKey on 128-bit types)",
-   detection=[]),
+   detection=[('C18', 'caught', '7 s', 'int-sort-key-order (sort-int, u128 keys)')]),
  "C19": dict(breaks="C19", file="mpc/mpc_psi.rs (compute_oprf mask)",
    needs="compiled join whose second table has >= 4 void rows (first table for Full): all void rows get the same OPRF value and cuckoo hashing aborts deterministically",
-   detection=[]),
+   detection=[("C19 (as committed before the seed was read: every 'Cuckoo hashing failed' was tolerated as the documented abort)", 'MISSED (by construction)', '-', ''), ('C19 (after adding the rule: an abort that persists under 8 of 8 independent evaluator seeds is not the documented negligible-probability event)', 'caught', '43 s', 'compiled-cuckoo-abort-persistent')],
+   note='strengthened: c19 persistent cuckoo-abort rule'),
  "C20": dict(breaks="C20", file="ops/taylor_exponent.rs (max_exp_bits)",
    needs="TaylorExponent with precision <= 14 and input >= 16 ln 2 (~11.09) inside the documented range",
+   detection=[("C20 (as committed before the seed was read: TaylorExponent domain stopped at x = 10, the interval the repository's tests sweep)", 'MISSED (by construction: the change needs x >= 11.09)', '-', ''), ('C20 (after extending the domain to the documented exponent bound, 31 - p binary digits)', 'caught', '205 s (box loaded)', 'taylor-rel (taylor-grid)')],
+   note='strengthened: c20 Taylor domain'),
+ "C01b": dict(breaks="C01 (join part; judged by C19)", file="mpc/mpc_psi.rs (JoinMPC step 15: selection bits without the match_bits term)",
+   needs="a matched row whose key is mapped to the same cuckoo slot by two hash functions (probability ~1/64 per evaluation for small tables): payload added twice, match bit cancels",
+   detection=[("C19","caught","86 s","p3-output (three-party tier; the compiled tier needs the same collision)"),("C01","not caught (C01 does not generate joins; joins are C19's domain)","32 s","")]),
+ "C02b": dict(breaks="C02", file="mpc/resharing.rs (MixedMultiply / ApplyPermutation arm of compute_graph_resharing)",
+   needs="MixedMultiply (or ApplyPermutation) with a private second operand whose first operand is a pending product of two private values not reshared for another consumer",
+   detection=[]),
+ "C03b": dict(breaks="C03", file="mpc/resharing.rs (local_operation_handler: any -> all)",
+   needs="a multi-input non-broadcasting local operation (CreateTuple, CreateVector, Concatenate, ...) holding an un-reshared private product next to a reshared value, revealed to a party: raw product shares are sent",
+   detection=[("C03 (with the container-of-products family)","MISSED","160 s",""),("C03 (family extended with product + non-product containers)","MISSED: the matching cases need 2^15 relevant tape assignments x 8 inputs, above the quick budget of the exhaustive tier (they are within the thorough budget)","56 s","")]),
+ "C04b": dict(breaks="C04", file="graphs.rs (Operation::is_const_optimizable as an explicit list)",
+   needs="CuckooToPermutation / DecomposeSwitchingMap whose arguments are all constants: folded into a Constant",
+   detection=[]),
+ "C05b": dict(breaks="C05", file="mpc/mpc_truncate.rs (TruncateMPC2K step 0 offset)",
+   needs="INT128, power-of-two divisor, input an exact multiple of the divisor, tape with zero low mask bits: floor - 1",
+   detection=[("C05","caught","4 s","pow2-out-of-band")]),
+ "C06b": dict(breaks="C06", file="optimizer/duplicates_optimizer.rs (dependency ids sorted for Add/Multiply/Dot)",
+   needs="the same two nodes fed to Dot in both orders with >= 1 operand of rank >= 2: dot(b,a) replaced by dot(a,b)",
+   detection=[("C06 (as committed when first tried)","reported a violation, but through a check that was too strict (operand POSITION of a Send-carrying argument; merging Add(x,y) with Add(y,x) is legitimate) - the check was corrected, see DESIGN 7.4","4 s","send-dep-dropped"),("C06 (position-independent check + DupSwap kind: an existing two-operand node re-added with swapped operands)","caught","1 s","output-value"),("C04","not caught (not a randomness property)","8 s","")],
+   note="strengthened: graphgen K::DupSwap; c06/c04 dependency checks made position-independent"),
+ "C07b": dict(breaks="C07", file="inline/exponential_inliner.rs (one_hot_encode pairwise product drops the odd leftover)",
+   needs="SmallState body with state width exactly 3, depth-optimised mode",
+   detection=[("C07","caught","8 s","mismatch:small-logsum:final-state")]),
+ "C09b": dict(breaks="C09", file="evaluators.rs (evaluate_graph frees the output node's value)",
+   needs="the designated output node is also an argument of a later node (also inside Call/Iterate bodies): evaluation panics",
+   detection=[]),
+ "C11b": dict(breaks="C11", file="graphs.rs (Context::set_node_name inserts before the duplicate test)",
+   needs="a rejected duplicate node name followed by a lookup by name",
+   detection=[("C11","caught","1 s","err-mutates-getters:set_node_name (pinned walkthrough; also in the campaigns)")]),
+ "C12b": dict(breaks="C12 (and C11)", file="graphs.rs (add_node_internal: 'callee graph must be older' check removed)",
+   needs="graph A created, graph B created and finalized afterwards, then a Call/Iterate node in A refers to B: the context evaluates but its serialization is rejected",
+   detection=[("C12 (as committed when first tried: recipes always build callees first)","MISSED","69 s",""),("C11","caught","4 s","guard-missing:gdep-not-older"),("C12 (after adding the rt-order sub-check: contexts built through unusual API call orders)","caught","see RESULTS in DESIGN 7.6","order-rt-deser-err")],
+   note="strengthened: c12_order.rs"),
+ "C18b": dict(breaks="C18", file="mpc/mpc_radix_sort.rs (first-chunk handling)",
+   needs="compiled sort of private data with an odd key width >= 3",
+   detection=[("C18","caught","8 s","sort-compiled-shared-sum")]),
+ "C19b": dict(breaks="C19", file="mpc/mpc_psi.rs (same_non_key_headers)",
+   needs="compiled Union join, key pair with different names, first table has a payload column named like the second table's key column",
    detection=[]),
 }
 
